@@ -580,6 +580,7 @@ def icp_trace(kind, dtype_name, steps, seeds):
     dt = tdtype(torch, dtype_name)
     eps = eps_of(dtype_name)
     ev = []
+    shared = None
     for seed in seeds:
         x, y, init, true = icp_instance(np, seed, kind)
         xs, ys = torch.tensor(x, dtype=dt), torch.tensor(y, dtype=dt)
@@ -587,9 +588,22 @@ def icp_trace(kind, dtype_name, steps, seeds):
         if init is not None:
             it = pp.SE3(torch.tensor(list(init[1]) + list(init[0]), dtype=dt))
         stepper = pp.utils.ReduceToBason(steps=steps) if steps else None
-        icp = pp.module.ICP(init=it, stepper=stepper)
         try:
-            r = icp(xs, ys)
+            if it is None:
+                # one module instance is reused for all registrations of the trace; its first use is a registration
+                # started from a far per-call init: later calls without init must start from the identity again
+                if shared is None:
+                    shared = pp.module.ICP(stepper=stepper)
+                    far = pp.SE3(torch.tensor([40.0, -30.0, 20.0, 0.0, 0.0, 0.6, 0.8], dtype=dt))
+                    try:
+                        shared(xs, ys, init=far)
+                    except Exception:
+                        pass
+                r = shared(xs, ys)
+            elif seed % 2:
+                r = pp.module.ICP(stepper=stepper)(xs, ys, init=it)      # per-call init
+            else:
+                r = pp.module.ICP(init=it, stepper=stepper)(xs, ys)      # constructor init
         except Exception as ex:
             ev.append({"act": "icp", "seed": seed, "rec": -1, "b": 0, "a": 1 << 30, "exc": True, "msg": repr(ex)[:200]})
             continue
